@@ -180,7 +180,8 @@ class Ctx:
 
 
 def collect_races(prefix):
-    """Parse GORACE log files; returns (n_reports, violations, harness_error)."""
+    """Parse GORACE log files; returns (n_reports, violations, harness_error).
+    Reports are deduplicated by the pair of innermost repository frames (harness frames stripped)."""
     import re
     reports = []
     for f in sorted(glob.glob(prefix + '.*')):
@@ -188,23 +189,35 @@ def collect_races(prefix):
         for blk in txt.split('=================='):
             if 'WARNING: DATA RACE' in blk:
                 reports.append(blk)
+
+    def repo_frames(text):
+        out = []
+        for m in re.finditer(r'^\s+((?:github\.com/whawty/auth)\S*?)\(\)\s*$', text, re.M):
+            fn = m.group(1)
+            if '/zz_verif/' in fn:
+                continue
+            short = fn.split('/')[-1]          # e.g. whawty-auth.(*store).update
+            name = short.split('.', 1)[1] if '.' in short else short
+            name = name.lstrip('(*')
+            if re.match(r'(TestVerif|c\d\d|ovl|verif)', name):
+                continue
+            out.append(fn.replace('github.com/whawty/auth/', ''))
+        return out
+
     vio = {}
     herr = None
     for blk in reports:
-        frames = re.findall(r'^\s+((?:github\.com/whawty/auth|main)[^\s(]*)\(', blk, re.M)
-        code = [fr for fr in frames if 'zz_verif' not in fr and not fr.startswith('main.Test') and not fr.startswith('main.zz')]
-        # frames of package main that come from overlay test files are named main.c10..., main.c11... etc.
-        code = [fr for fr in code if not re.match(r'main\.(c\d\d|ovl|verif)', fr)]
-        if code:
-            stacks = re.split(r'\n\s*\n', blk)
-            tops = []
-            for st in stacks:
-                m = re.findall(r'^\s+((?:github\.com/whawty/auth|main)[^\s(]*)\(', st, re.M)
-                m = [x for x in m if 'zz_verif' not in x and not re.match(r'main\.(c\d\d|ovl|verif|Test)', x)]
-                if m:
-                    tops.append(m[0])
+        stacks = re.split(r'\n\s*\n', blk)
+        tops = []
+        for st in stacks:
+            if st.lstrip().startswith('Goroutine'):
+                continue  # creation stacks
+            fr = repo_frames(st)
+            if fr:
+                tops.append(fr[0])
+        if tops:
             sig = 'race:' + '|'.join(sorted(set(tops))[:3])
-            vio.setdefault(sig, {'sig': sig, 'what': 'data race reported by the Go race detector involving repository code', 'witness': blk.strip()[:3000]})
+            vio.setdefault(sig, {'sig': sig, 'what': 'data race reported by the Go race detector in repository code: ' + ' <-> '.join(sorted(set(tops))[:3]), 'witness': blk.strip()[:3000]})
         else:
             herr = 'race report without repository frames (harness race?): ' + blk.strip()[:800]
     return len(reports), list(vio.values()), herr
